@@ -225,7 +225,7 @@ class Harness:
             if compr == 0:
                 lines.append(f'read {self.name} {rid} raw {stream or "-"}')
             else:
-                spec = ','.join(f'{f["fl"]}:{f["content"] or "-"}' for f in frames)
+                spec = ','.join(f'{f["fl"]}:{f["content"] or "-"}' for f in (frames or []))
                 lines.append(f'read {self.name} {rid} frames {spec or "-"}')
         return lines
 
